@@ -3,6 +3,7 @@ package drv
 import (
 	"fmt"
 	"github.com/parsyl/parquet/verifkit/ref/thriftc"
+	"io"
 	"strings"
 
 	"github.com/parsyl/parquet/verifkit/ref/dremel"
@@ -368,6 +369,14 @@ func forEachCarrier(c *Ctx, sh *Shape, prefix string, only func(feature string) 
 	for i := 0; i < 3 || len(recs) < 15; i++ {
 		recs = append(recs, genTree(sc, fullChooser{}, counterVals{&counter}, []int{0, 1, 2}))
 	}
+	if strings.HasPrefix(prefix, "big/") {
+		// row groups of more than 1 MiB: 24 records whose strings are 48-70 KiB each
+		rng := Rng(c.Seed, "c18big/"+sh.Name)
+		recs = recs[:0]
+		for i := 0; i < 24; i++ {
+			recs = append(recs, genTree(sc, fullChooser{}, bigStrings{rng}, []int{0, 1, 2}))
+		}
+	}
 	n := len(recs)
 	part := []int{n / 3, n / 3, n - 2*(n/3)}
 	// interleave full records through all row groups
@@ -465,9 +474,12 @@ func ChunkStart(ch *pqfile.Chunk) int64 {
 func runC18(c *Ctx) {
 	for _, sh := range c.SelShapes() {
 		sc := sh.Schema()
-		forEachCarrier(c, sh, "", nil, func(cc *carrier) {
+		check := func(cc *carrier) {
 			n := len(cc.Recs)
 			c.Out.Count("cases", 1)
+			if strings.HasPrefix(cc.ID, "big/") {
+				c.Out.Count("carriers_with_row_groups_over_1MiB", 1)
+			}
 			c.Out.Count("feature_"+cc.Feature, 1)
 			if cc.RG > 0 {
 				c.Out.Count("feature_in_later_row_group", 1)
@@ -476,30 +488,46 @@ func runC18(c *Ctx) {
 				c.Out.Count("feature_in_later_page", 1)
 			}
 			c.Out.Distinct(cc.ID, cc.RG > 0 || cc.PI > 0)
-			res := ReadAll(sh, NewSource(cc.File), n+5)
-			bad := func(kind, detail string) {
-				c.Out.Violate(Violation{Prop: "C18", Key: "feature=" + cc.Feature + ";kind=" + kind, Case: cc.ID, Shape: sh.Name,
-					Detail: fmt.Sprintf("otherwise valid file (%d bytes, %d rows in 3 row groups) whose column %s uses %s in row group %d, page %d (codec %s): %s", len(cc.File), n, cc.Col, cc.Feature, cc.RG, cc.PI, CodecNames[int(cc.Codec)], detail)})
-			}
-			switch {
-			case res.Panic != nil:
-				bad("panic", fmt.Sprintf("reader panicked: %v\n%s", res.Panic, clip(res.Stack)))
-			case res.CtorErr != nil:
-				c.Out.Count("refused_by_constructor", 1)
-				c.Out.SetAdd("refusal_messages", errClass(res.CtorErr))
-			case res.Err != nil:
-				c.Out.Count("refused_during_iteration", 1)
-				c.Out.Count("rows_delivered_before_refusal", int64(len(res.Recs)))
-				c.Out.SetAdd("refusal_messages", errClass(res.Err))
-			default:
-				wrong := CompareRecs(sc, cc.Recs, res.Recs)
-				if wrong == "" {
-					wrong = "(the rows happen to equal the file's logical content)"
+			// every carrier is read twice: through a plain ReadSeeker and through a source that
+			// also offers ReadAt/ReadByte/WriteTo (as *os.File and bytes.Reader do)
+			for _, rich := range []bool{false, true} {
+				var src io.ReadSeeker = NewSource(cc.File)
+				if rich {
+					src = RichSource{NewSource(cc.File)}
+					c.Out.Count("reads_through_a_source_with_ReadAt", 1)
 				}
-				bad("accepted", fmt.Sprintf("no error from the constructor or Error(); %d rows delivered; %s", len(res.Recs), wrong))
+				res := ReadAll(sh, src, n+5)
+				bad := func(kind, detail string) {
+					c.Out.Violate(Violation{Prop: "C18", Key: "feature=" + cc.Feature + ";kind=" + kind, Case: cc.ID, Shape: sh.Name,
+						Detail: fmt.Sprintf("otherwise valid file (%d bytes, %d rows in 3 row groups) whose column %s uses %s in row group %d, page %d (codec %s), read through a source with ReadAt: %v: %s", len(cc.File), n, cc.Col, cc.Feature, cc.RG, cc.PI, CodecNames[int(cc.Codec)], rich, detail)})
+				}
+				switch {
+				case res.Panic != nil:
+					bad("panic", fmt.Sprintf("reader panicked: %v\n%s", res.Panic, clip(res.Stack)))
+				case res.CtorErr != nil:
+					c.Out.Count("refused_by_constructor", 1)
+					c.Out.SetAdd("refusal_messages", errClass(res.CtorErr))
+				case res.Err != nil:
+					c.Out.Count("refused_during_iteration", 1)
+					c.Out.Count("rows_delivered_before_refusal", int64(len(res.Recs)))
+					c.Out.SetAdd("refusal_messages", errClass(res.Err))
+				default:
+					wrong := CompareRecs(sc, cc.Recs, res.Recs)
+					if wrong == "" {
+						wrong = "(the rows happen to equal the file's logical content)"
+					}
+					bad("accepted", fmt.Sprintf("no error from the constructor or Error(); %d rows delivered; %s", len(res.Recs), wrong))
+				}
 			}
 			c.Out.Sample(map[string]interface{}{"case": cc.ID, "feature": cc.Feature, "column": cc.Col, "row_group": cc.RG, "page": cc.PI, "file_bytes": len(cc.File)})
-		})
+		}
+		forEachCarrier(c, sh, "", nil, check)
+		if sh.Name == "p8" {
+			// the same features on files whose row groups exceed 1 MiB
+			forEachCarrier(c, sh, "big/", func(f string) bool {
+				return strings.HasPrefix(f, "codec_") || strings.HasPrefix(f, "value_encoding_id_") || f == "delta_length_byte_array" || f == "rle_boolean" || f == "bit_packed_def_levels" || f == "data_page_v2"
+			}, check)
+		}
 	}
 }
 
